@@ -1068,6 +1068,44 @@ impl<'ast, 'r, 'a> Visit<'ast> for Collector<'r, 'a> {
                 self.rw.log.push(format!("R65 self.iter_transitions().filter_map(..) -> loop {key} collecting into a vector"));
                 self.edits.push(Edit { range: rng(e), text: format!("{{ let __src = {src}; let ghost __src_g = __src@; let mut __out{out_ty} = Vec::new(); for {pat} in {iter}__src {hdr}{{ {bs}if let Some(__v) = {body} {{ __out.push(__v); }} {be}}} {after} __out }}"), prio: 0 });
             }
+            // R66: `M.iter().flat_map(|(A, B)| B.iter().map(|(C, D)| E))` as the value of a function extracted by R64
+            //   (M the transition table) -> `{ let mut __out = Vec::new(); for (A, B) in __tmap_entries(&M) { for (C, D) in __imap_entries(&(B)) { __out.push(E); } } __out }`
+            syn::Expr::MethodCall(m)
+                if self.rw.on("R66") && m.method == "flat_map" && m.args.len() == 1
+                    && is_method(&m.receiver, "iter").map_or(false, |it| it.args.is_empty()) =>
+            {
+                let it0 = is_method(&m.receiver, "iter").unwrap();
+                let ocl = match &m.args[0] {
+                    syn::Expr::Closure(c) if c.capture.is_none() && c.inputs.len() == 1 => c,
+                    _ => die("unsupported", &format!("{}: R66 side condition violated (outer closure)", self.rw.fn_path)),
+                };
+                let imap = match is_method(&ocl.body, "map") { Some(x) if x.args.len() == 1 => x, _ => die("unsupported", &format!("{}: R66 side condition: the outer closure is not `B.iter().map(..)`", self.rw.fn_path)) };
+                let iit = match is_method(&imap.receiver, "iter") { Some(x) if x.args.is_empty() => x, _ => die("unsupported", &format!("{}: R66 side condition: the outer closure is not `B.iter().map(..)`", self.rw.fn_path)) };
+                let icl = match &imap.args[0] {
+                    syn::Expr::Closure(c) if c.capture.is_none() && c.inputs.len() == 1 && !closure_has_control_flow(&c.body) => c,
+                    _ => die("unsupported", &format!("{}: R66 side condition violated (inner closure)", self.rw.fn_path)),
+                };
+                let k0 = self.rw.next_key("R66");
+                let (iter0, hdr0, bs0, be0) = self.rw.loop_parts(&k0);
+                let k1 = self.rw.next_key("R66");
+                let (iter1, hdr1, bs1, be1) = self.rw.loop_parts(&k1);
+                let opat = self.rw.text(&ocl.inputs[0]).to_string();
+                let ipat = self.rw.text(&icl.inputs[0]).to_string();
+                let table = self.render(&it0.receiver);
+                let row = self.render(&iit.receiver);
+                let body = self.render(&icl.body);
+                let ckey = format!("{k0}c");
+                let out_ty = self.rw.loops.iter().find(|l| l.key == ckey).and_then(|l| l.closure_sig.clone()).map(|t| format!(": {}", t.trim())).unwrap_or_default();
+                for l in self.rw.loops.iter_mut() { if l.key == ckey { l.used = true; } }
+                let mut after = String::new();
+                let mut after_inner = String::new();
+                for p in self.rw.proofs.iter_mut() {
+                    if p.anchor == k0 && p.mode == "loopafter" { p.used = true; after.push_str(&format!("\nproof {{\n{}}}\n", p.text)); }
+                    if p.anchor == k1 && p.mode == "loopafter" { p.used = true; after_inner.push_str(&format!("\nproof {{\n{}}}\n", p.text)); }
+                }
+                self.rw.log.push(format!("R66 M.iter().flat_map(|..| B.iter().map(..)) -> loops {k0} / {k1} collecting into a vector"));
+                self.edits.push(Edit { range: rng(e), text: format!("{{ let mut __out{out_ty} = Vec::new(); let __rows = __tmap_entries(&{table}); let ghost __rows_g = __rows@; for {opat} in {iter0}__rows {hdr0}{{ {bs0}let __cells = __imap_entries(&({row})); let ghost __cells_g = __cells@; for {ipat} in {iter1}__cells {hdr1}{{ {bs1}__out.push({body}); {be1}}} {after_inner} {be0}}} {after} __out }}"), prio: 0 });
+            }
             // R52: M.keys().cloned().collect()  ->  __imap_key_set(&M)   (the key set of an inner map of the table; the
             // stand-in returns IndexSet<InpId>, so the rewritten text only compiles at that type)
             syn::Expr::MethodCall(m)
